@@ -26,34 +26,34 @@ add("C05", "exploration", EXPL,
     "Timer granularity 1 ms modelled as 2 ms slack; clock read through hook H1.", "DESIGN.md §5 C05")
 
 add("C03", "fault_enumeration", "deterministic simulation: abandonment (crash of the caller) enumerated at every suspension point of every call of seeded scenarios, plus seeded search over schedules",
-    "Enumeration plus seeded exploration of abandonment at every suspension point of a call (before first poll, after k polls, at a time, request on the wire, reply queued, reply read) against capacity/buffer 1-3 and stalled sinks, with preemption inside the call guard's Drop (hook H2); per-id sink sequence in {eps, R, R.C} and the cancel obligation at every writable idle point.",
+    "Enumeration plus seeded exploration of abandonment at every suspension point of a call (before first poll, after k polls, at a time, request on the wire, reply queued, reply read) against capacity/buffer 1-3 and stalled sinks, with preemption inside the call guard's Drop (hook H2) and, in a share of runs, waker churn (the dispatch gets a fresh waker on every poll and only the latest one schedules it); per-id sink sequence in {eps, R, R.C} and the cancel obligation at every writable idle point.",
     "Cancel obligations are evaluated at idle points (quiescence with the clock frozen), not at poll ends, so tokio's cooperative-budget yields cannot raise alarms.", "DESIGN.md §5 C03")
 add("C04", "exploration", EXPL,
-    "Seeded exploration of the Cancel's position relative to handler start, completion, response buffering and write on the real BaseChannel/Requests/execute path with scripted handlers that log every poll and their drop; checks no progress / no response / not counted after a cancel and that unrelated cancels abort nothing. (Chains of services: see P-e2e in DESIGN.md.)",
+    "Seeded exploration of the Cancel's position relative to handler start, completion, response buffering and write on the real BaseChannel/Requests/execute path with scripted handlers that log every poll and their drop; checks no progress / no response / not counted after a cancel, that unrelated cancels abort nothing, that a delivered cancel does not stay unread at a quiescent point and that an unlimited channel never writes a response ahead of a cancel that was already on the transport when the poll began. (Chains of services: see P-e2e in DESIGN.md.)",
     "Handler polls already in progress when the cancel is processed at a preemption point may run to their end; their result must not be transmitted.", "DESIGN.md §5 C04")
 add("C06", "exploration", EXPL,
     "Virtual-clock exploration of server-side deadlines (expired on arrival .. 50 ms, and 1-30 years under a 780-day horizon) against handlers finishing at D-2..D+1 or never, with and without a per-channel limit, with stalled sinks, clock jumps and requests arriving after months of quiet; never-early, not-late at idle points (2 ms slack), nothing transmitted after expiry, no collateral aborts.",
     "The defect first recorded as a known finding (limit + not-ready sink deferred expiry, D6) is fixed in /repo 9e3abbf; its entries in known_findings.json are 'fixed' and suppress nothing.", "DESIGN.md §5 C06, §7 D6")
 add("C08", "exploration", EXPL,
-    "Seeded exploration with a scripted peer sending fresh ids, duplicates while in flight, ids reused after their response, cancels and close against the real channel; counts handler offers and responses per incarnation with an interval (definitely/possibly tracked) model.",
+    "Seeded exploration with a scripted peer sending fresh ids, duplicates while in flight, ids reused after their response, cancels and close against the real channel; counts handler offers and responses per incarnation with an interval (definitely/possibly tracked) model; at no quiescent point are two handlers of one id alive, and a response goes out only if its handler finished before the request expired (incl. requests that fall overdue together inside a clock step).",
     "Id reuse after cancel/expiry with a still-buffered response is outside the property's quantifier and excluded from response attribution.", "DESIGN.md §5 C08")
 add("C10", "fault_enumeration", "deterministic simulation: end-of-stream enumerated at every read of a fault-free run (client and server side), handle drop / half-close at seeded points, seeded schedules",
     "End-of-stream is substituted for every k-th read of fault-free seeded scenarios (peer close on the client, half-close on the server). Every client run ends by dropping the last handle (and a share of runs do it, or a peer EOF, mid-run): cancels owed must precede the first poll_close, nothing is written after it, the dispatch returns Ok; on peer EOF dispatch and calls end within the same idle window. Every server run ends with inbound EOF: the stream may not end while a request is in flight or a response unflushed, and must end at the first idle point after.",
     "EOF positions are enumerated per read operation (first 16 in the quick tier, 80 in the thorough tier); handle drops are at seeded times and at the end of every run.", "DESIGN.md §5 C10")
 add("C11", "exploration", EXPL,
-    "In-flight and timer counts (hook H3) sampled after every dispatch / request-stream poll: client never above max_in_flight (also derived from the wire), server count within the interval model at every sample, and zero entries and zero timers at every idle point where all calls / yielded requests have ended, with the clock stopped.",
+    "In-flight and timer counts (hook H3) sampled after every dispatch / request-stream poll: client never above max_in_flight (also derived from the wire), server count within the interval model at every sample, and zero entries and zero timers at every idle point where all calls / yielded requests have ended (answered, cancelled, expired, dropped by the application, or ended by a handler panic that the executor contained), with the clock stopped.",
     "Fault runs are included: after a failed response write the count sampled in the failing poll is still compared (the answered request has ended for the channel).", "DESIGN.md §5 C11")
 add("C12", "exploration", EXPL,
-    "Limits 0-3 on the real MaxRequests over BaseChannel with bursts, cancels, completion orders and sink stalls; interval model: never yielded with L definitely in flight, refused only if L were possibly in flight when read, exactly one throttle response, never executed.",
+    "Limits 0-3 and the far ends of usize (usize::MAX, isize::MAX+1, ...) on the real MaxRequests over BaseChannel, set on the channel, by a listener-wide default, or twice (either nesting order, judged against the stricter), with bursts, floods, cancels, completion orders and sink stalls; interval model: never yielded with L definitely in flight, refused only if L were possibly in flight when read, exactly one throttle response, never executed.",
     "Expiry and guard-drop processing are not observable, so such requests stay in the upper bound (no alarm from an unprovable stale count).", "DESIGN.md §5 C12, §7 D8")
 add("C14", "exploration", EXPL,
     "A contract monitor inside the simulated transport checks every Sink call of the client dispatch, the server channel and the throttler: readiness token before each write, nothing after close/failure, no Pending with unflushed items, at most 64 not-ready results per poll; capacities 1,2,3,inf, coupled and independent readiness, stalls.",
     "Monitor state machine is DESIGN.md A.3.", "DESIGN.md §5 C14, §7 D2")
 add("C16", "exploration", EXPL,
-    "Well-typed boundary-valued deadlines from local callers (client dispatch) and from the peer (server channel), with no subscriber, a formatting subscriber and the OpenTelemetry SDK layer installed, including 780-day runs in which far-deadline requests arrive at t=0 or after 70-600 quiet days; and byte-level adversaries (bit flips of valid frames, garbage frames, floods, truncation at every cut point) against a real server channel and a real client dispatch over the serde transport. Any panic in any task is a violation; malformed frames must end the connection with an error; a well-formed probe after tolerated input must still be served.",
+    "Well-typed boundary-valued deadlines from local callers (client dispatch) and from the peer (server channel), with no subscriber, a formatting subscriber and the OpenTelemetry SDK layer installed, including 780-day runs in which far-deadline requests arrive at t=0 or after 70-600 quiet days; and byte-level adversaries (bit flips and length-changing splices of valid frames, garbage frames, floods, truncation at every cut point) against a real server channel and a real client dispatch over the serde transport. Any panic in any task is a violation; malformed frames must end the connection with an error; a well-formed probe after tolerated input must still be served.",
     "One known finding (D9): a frame cut by EOF exactly after its 4-byte length prefix ends the connection cleanly (tokio_util LengthDelimitedCodec behaviour).", "DESIGN.md §5 C16, §7 D5/D7")
 add("C18", "exploration", EXPL,
-    "Distinct caller-supplied trace ids and sampling decisions per call under concurrency and cancellation: transmitted trace id = caller's, fresh span per hop, Cancel carries the Request's transmitted context, handler observes what was transmitted.",
+    "Distinct caller-supplied trace ids and sampling decisions per call under concurrency and cancellation: transmitted trace id = caller's, fresh span per hop, Cancel carries the Request's transmitted context, handler observes what was transmitted; the context is checked wherever a request is handed out (request stream, or an application reading the bare channel by hand).",
     "Span ids come from a deterministic source (hook H5) and are compared only for (in)equality. With the OpenTelemetry layer the first hop's trace is the root span's own; from hop 1 on, and for every handler, the transmitted trace id and sampling decision must be preserved.", "DESIGN.md §5 C18")
 
 add("C07", "exploration", EXPL,
@@ -63,14 +63,14 @@ add("C09", "fault_enumeration", ENUM,
     "One injected transport failure per run at the k-th poll_ready / start_send / poll_flush / poll_close / poll_next, or end-of-stream instead of the k-th read, with k drawn over the whole run, on top of the general client and server scenario spaces: the dispatch / request stream must report the failed activity, every outstanding call fails with a connection error, later calls fail fast, a failed request write fails only that call, dropped channels abort their handlers, and nothing panics.",
     "k is sampled per run rather than enumerated exhaustively for one scenario; evidence reports how often each fault kind fired.", "DESIGN.md §5 C09")
 add("C13", "exploration", EXPL,
-    "Real MaxChannelsPerKey over real BaseChannels fed by a scripted listener: batches of arrive/close with the listener polled at tape-chosen points, 40% of batches making a close and a same-key arrival pending at one poll; a reference map of live channels per key decides over-limit, over-shed and capacity freeing.",
+    "Real MaxChannelsPerKey over real BaseChannels fed by a scripted listener: batches of arrive/close with the listener polled at tape-chosen points, 40% of batches making a close and a same-key arrival pending at one poll; keys whose hashes collide, limits 1-3 and u32::MAX, and rarely a crowd of about a thousand keys that mostly leave before the rest is tried again; a reference map of live channels per key decides over-limit, over-shed and capacity freeing.",
     "Drops of admitted channels are atomic harness steps.", "DESIGN.md §5 C13, §7 D3")
 add("C15", "exploration", EXPL,
     "Sequences of 0-12 protocol messages (all variants, boundary ids and trace ids, empty/unicode/64 KiB bodies, every io::ErrorKind) through the shipped serde transport with JSON and bincode over a SimPipe that fragments reads and writes (down to byte-by-byte), returns Pending, limits capacity and adds latency, and through the in-memory bounded/unbounded channels; reader's items must equal writer's, then end-of-stream; hand-built JSON frames omit optional fields.",
     "Split positions are sampled by the tape, not enumerated.", "DESIGN.md §5 C15, §7 D1")
 
 add("C20", "exploration", EXPL,
-    "RoundRobin over 1-5 scripted backends driven by 1-6 concurrent caller tasks (with abandoned calls and preemption at the cursor's yield point, hook H4): per-backend selection counts never differ by more than one after any selection; ConsistentHash with fixed-key SipHash and degenerate hashers: equal requests map to one valid backend; Retry against a reference retry loop: attempts numbered 1,2,3.., identical Arc-shared request, stops exactly when the policy declines, last result returned unchanged.",
+    "RoundRobin over 1-5 scripted backends driven by 1-6 concurrent caller tasks (with abandoned, expired-deadline and never-polled calls, cloned handles, callers that render the stub with {:?} between calls, and preemption at the cursor's yield point, hook H4): per-backend selection counts never differ by more than one after any selection; ConsistentHash with fixed-key SipHash and degenerate hashers: equal requests map to one valid backend; Retry (with caller deadlines, slow attempts, an abandoned earlier call, and with or without a TRACE-level subscriber) against a reference retry loop: attempts numbered 1,2,3.., identical Arc-shared request, stops exactly when the policy declines, last result returned unchanged.",
     "The consistent-hash clause is input sampling (no schedule dependence); backends are scripted stubs.", "DESIGN.md §5 C20")
 
 NOT_YET = {}
